@@ -8,7 +8,8 @@ correspondence: the REAL pdsh binary built from /repo (`pdsh -Q <options>`: the 
                 editable-list model of C16; regex answers from libc via harness/regex_oracle.c); the DETERMINISTIC
                 classes of vlib/xcl.py first (same command lines at every seed), then the random profiles; the real
                 hostlist.c in process (find / delete on range records) vs `hl edit` / `hl plspec`; exclusion files of
-                exactly 2^22-2 and 2^22-1 bytes of ranged text (the ceiling of list_push_hostlist)
+                exactly 2^22-2 and 2^22-1 bytes of ranged text (where list_push_hostlist cut the text before /repo b20e58e)
+                through the real pdsh AND the model (linear path Opt/ExcludeFast.lean, proved equal to the model)
 oracle:         the same command lines, by meaning, through `pdshmodel hl xspec` (Opt/ExcludeSpec.lean:
                 assembled targets minus every occurrence of every excluded name, regex filters, order kept)
 """
@@ -38,12 +39,12 @@ MANIFEST = dict(
          "property names (vlib/xcl.py) at every seed, then random profiles; the list pdsh goes on with (-Q) and the hosts "
          "really contacted are compared with the model and with the specification (assembled minus excluded, filtered), "
          "which yields the failing argv as replay; hostlist_find/hostlist_delete of the real hostlist.c on range records "
-         "against the list model and the plain-list specification; exclusion files at the 4 MiB ceiling.",
+         "against the list model and the plain-list specification; exclusion files of 4 MiB (the former ceiling of list_push_hostlist) through real pdsh, model and specification.",
     design_ref="DESIGN.md section 5 C02",
     note="Lean 4.33 kernel; axioms propext/Classical.choice/Quot.sound at most (audited per theorem every run); "
          "hand-written model tied to opt.c/hostlist.c by differential execution of the real pdsh built from /repo; "
          "defect switches probed from the code on every run (D1 by a behavioural probe of hostlist_delete, D2 by "
-         "running the real pdsh on a 4095-byte exclusion file); reading of ^files is C10's (files here hold one "
+         "running the real pdsh on a 4200-byte exclusion file); reading of ^files is C10's (files here hold one "
          "expression per line); regex semantics trusted to libc (oracle table); generators, gcc trusted")
 
 BIG = 1 << 25
@@ -673,6 +674,11 @@ def judge_one(ctx, cli, oracle, case, d2, dist, shrinking, m, s, bad, mode):
                 if not shrinking:
                     ctx.offender(sig, "pdsh goes on with a pattern regcomp() refuses: %s" % bad,
                                  shrink(ctx, cli, oracle, case, d2, "spec:" + sig, mode).to_json())
+        elif "malformed-x" in case.tags and ikind == "fatal":
+            # an exclusion word hostlist_create() refuses: stopping with a diagnostic (nobody is contacted) is as
+            # admissible as going on without it — what is NOT admissible is to go on and drop the other exclusions
+            if not shrinking:
+                dist["malformed-x-fatal"] = dist.get("malformed-x-fatal", 0) + 1
         elif (sk, sh) != (ikind, ihosts):
             sig = classify(case, (ikind, ihosts), shosts)
             if "model-vs-impl" in tags:
@@ -742,40 +748,59 @@ def probe_d2(cli):
     return None
 
 
-CUT = (1 << 22) - 1       # Props/C02 exclusion_file_whole / exclusion_file_cut: the ranged form is cut from this length on
+CUT = (1 << 22) - 1       # Props/C02 exclusion_file_ceiling_whole / exclusion_file_cut: with the ceiling of the loop before
+                          # /repo b20e58e the ranged form was cut from this length on
 
 
-def big_xfile(ctx, cli, ln, dist):
-    """F02-XFILE-4MIB on the real pdsh: an exclusion file whose ranged form is exactly `ln` bytes (the model is
-    quadratic in the number of names, so a file of 2^22 bytes is judged by the specification alone: the first, the
-    middle and the last name of the file are targets next to `keep1`; all three are excluded, keep1 must be what is left).
-    The replay is the recipe (the file has 4 MiB)."""
+def big_xfile(ctx, cli, oracle, ln, dist, d2):
+    """F02-XFILE-4MIB: an exclusion file whose ranged form is exactly `ln` bytes, through the REAL pdsh (listing and the
+    hosts really contacted), the MODEL (`pdshmodel hl xcl` executes Opt/ExcludeFast.lean `cliFinalWF`, proved equal to
+    `cliFinalW`, linear in the size of the file) and the SPECIFICATION: the first, the middle and the last name of the file
+    are targets next to `keep1`; all three are excluded, keep1 must be what is left.
+    The replay is the recipe (the file has 4 MiB): `names` are vlib.xcl.xfile_names(ln), one per line."""
     names = xclsys.xfile_names(ln)
     f = os.path.join(cli.cwd, "bigx_%d" % ln)
-    with open(f, "w") as fh:
-        fh.write("".join(n + "\n" for n in names))
     hit = [names[0], names[len(names) // 2], names[-1]]
-    args = ["-Q", "-w", "keep1," + ",".join(hit), "-x", "^" + f]
-    rc, out, err = cli.run(args, timeout=20)
-    if rc == "timeout":
-        rc, out, err = cli.run(args, timeout=90)      # (0.6 s on an idle machine)
-    os.unlink(f)
-    got = out.split(b"\n")[-2].decode("latin1").split(",") if rc == 0 and out.count(b"\n") >= 2 else None
-    dist["xfile-%d" % ln] = "ok" if got == ["keep1"] else "timeout" if rc == "timeout" else "excluded-listed" if got else "rc%s" % rc
+    c = Case()
+    c.items = [("tgt", "keep1," + ",".join(hit)), ("xfile", f)]
+    c.opts = [("-w", "keep1," + ",".join(hit)), ("-x", "^" + f)]
+    c.files = {f: names}
+    c.tags.add("xfile-len=%d" % ln)
+    c.timeout = 30          # (0.6 s on an idle machine; a timeout is re-tried once by run_real)
+    write_files(c)
+    m, s, bad = model_spec(ctx, oracle, [c], d2)[0]
     case = {"recipe": "big-xfile", "ranged-length": ln, "names": "vlib.xcl.xfile_names(%d), one per line" % ln,
-            "argv": ["-Q", "-w", "keep1," + ",".join(hit), "-x", "^FILE"]}
-    if got == ["keep1"]:
-        return True
-    if rc == "timeout":
-        ctx.offender("spin:xfile>=4MiB", "pdsh does not answer within 90 s on an exclusion file whose ranged form has %d bytes" % ln, case)
-    elif got is not None and set(got) <= set(["keep1"] + hit) and "keep1" in got:
-        ctx.offender("excluded-contacted:xfile>=4MiB" if ln >= CUT else "excluded-contacted:xfile<4MiB",
-                     "exclusion file whose ranged form has %d bytes: pdsh still lists %s (all three are in the file)" % (
-                         ln, [h for h in got if h != "keep1"]), case)
-    else:
-        ctx.offender("wrong-list:xfile-big", "exclusion file whose ranged form has %d bytes: pdsh rc=%s lists %s, stderr %r" % (
-            ln, rc, got, err[-200:]), case)
-    return False
+            "argv": ["-w", "keep1," + ",".join(hit), "-x", "^FILE"]}
+    mk, mh = norm(*parse_model(m)[:2]) if parse_model(m)[0] != "ub" else ("ub", None)
+    shosts = [n.decode("latin1") for n in names_field(s[3:])[2]] if s.startswith("ok ") else None
+    dist["xfile-%d-model" % ln] = mk if mk != "ok" else ",".join(mh)
+    if shosts != ["keep1"]:
+        ctx.broken.append(("C-BROKEN", "check machinery (big exclusion file)", "the specification answers %r" % s[:200]))
+    good = True
+    for mode in ("list", "exec"):
+        ikind, ihosts, err = run_real(cli, c, mode)
+        ikind, ihosts = norm(ikind, ihosts)
+        dist["xfile-%d-%s" % (ln, mode)] = "ok" if ihosts == ["keep1"] else ikind if ikind != "ok" else "excluded-listed"
+        verb = "contacts" if mode == "exec" else "lists (-Q)"
+        if mk != "ub" and (mk, mh) != (ikind, ihosts):
+            ctx.disagreement("hl xcl model vs pdsh", "exclusion file whose ranged form has %d bytes: pdsh %s %s %s, model %s %s" % (
+                ln, verb, ikind, (ihosts or [])[:10], mk, (mh or [])[:10]), case)
+        if (ikind, ihosts) == ("ok", ["keep1"]):
+            continue
+        good = False
+        if ikind == "timeout":
+            ctx.offender("spin:xfile>=4MiB", "pdsh does not answer within 30 s (asked twice) on an exclusion file whose "
+                         "ranged form has %d bytes" % ln, case)
+        elif ikind == "ok" and set(ihosts) <= set(["keep1"] + hit) and "keep1" in ihosts:
+            ctx.offender("excluded-contacted:xfile>=4MiB" if ln >= CUT else "excluded-contacted:xfile<4MiB",
+                         "exclusion file whose ranged form has %d bytes: pdsh still %s %s (all three are in the file)" % (
+                             ln, verb, [h for h in ihosts if h != "keep1"]), case)
+        else:
+            ctx.offender("wrong-list:xfile-big", "exclusion file whose ranged form has %d bytes: pdsh %s %s %s, stderr %r" % (
+                ln, verb, ikind, (ihosts or [])[:10], err[-200:]), case)
+        break
+    os.unlink(f)
+    return good
 
 
 def probe_2br(cli):
@@ -887,7 +912,10 @@ def run(ctx):
                    "with each member excluded alone and each member alone surviving all others, duplicates at every "
                    "position, 36 patterns as keep and drop filters, filters hitting every position of a range, host number 0 "
                    "at every position of an exclusion, two-bracket words, exclusion files of 4093..4097 / 8190..8193 bytes, "
-                   "empty pieces, blanks behind the dash; library level: find/delete histories on range records; non-trivial = "
+                   "empty pieces, blanks behind the dash, exclusion words hostlist_create refuses (unbalanced brackets) at "
+                   "every position among well-formed exclusions (the others must still act), several words in ONE -w argument "
+                   "in every order of {target, -exclusion, /re/, -/re/} (the word after a dashed one), arguments holding only "
+                   "filters x $WCOLL read / ignored; library level: find/delete histories on range records; non-trivial = "
                    ">= 3 assembled hosts, >= 1 exclusion or filter that removes at least one "
                    "and keeps at least one host; distinct = distinct option list"}
     dist = {"profiles": {}}
@@ -954,15 +982,16 @@ def run(ctx):
                     os.unlink(name)
                 except OSError:
                     pass
-        # exclusion files at the 4 MiB ceiling of list_push_hostlist (real pdsh vs specification; open finding)
+        # exclusion files at what was the 4 MiB ceiling of list_push_hostlist before /repo b20e58e (real pdsh vs model vs
+        # specification; F02-XFILE-4MIB is FIXED: a tree that cuts the text again is a violation, the file is the replay)
         if d2 and (not ctx.replay or "recipe" in rcase):
             lens = [rcase["ranged-length"]] if ctx.replay else [CUT - 1, CUT] if ctx.quick() else \
                 [CUT - 1, CUT, 2 * CUT + 2, 9000000]
             for ln in lens:
                 try:
-                    big_xfile(ctx, cli, ln, dist)
+                    big_xfile(ctx, cli, oracle, ln, dist, d2)
                     cov["evaluations"] += 1
-                    if dist.get("xfile-%d" % ln) == "timeout":
+                    if "timeout" in (dist.get("xfile-%d-list" % ln), dist.get("xfile-%d-exec" % ln)):
                         break       # (reported; the longer files would only take longer)
                 except Exception as e:     # noqa
                     ctx.broken.append(("C-BROKEN", "check machinery (big exclusion file)", repr(e)))
@@ -1008,8 +1037,8 @@ def run(ctx):
                      "libc regcomp/regexec (REG_EXTENDED|REG_NOSUB, eflags 0) decide what a pattern matches; the "
                      "theorems assume nothing about WHAT matches, only that the verdict is a function of (pattern, name)",
                      "malloc never fails", "no misc module supplies or filters targets",
-                     "exclusion files whose ranged form reaches 4 MiB: the real pdsh is compared with the "
-                     "specification only (the model is quadratic in the number of names)"],
+                     "the driver executes Opt/ExcludeFast.lean cliFinalWF, proved equal to the model cliFinalW for every "
+                     "input (cliFinalWF_eq); exclusion files of 4 MiB go through model, specification and real pdsh"],
         trusted_base=["Lean 4.33 kernel", "axioms: propext, Classical.choice, Quot.sound at most (audited per theorem)",
                       "hand-written model lean/PdshVerif/Opt/Exclude.lean (+ Hostlist/*) tied to the code by differential "
                       "execution of the real pdsh", "Gen/Hostlist.lean regenerated from /repo (constants, probed switches); D2 "
